@@ -253,6 +253,7 @@ func batchPairs(dst []int) [][2][]int {
 }
 
 func runC04(c *fw.Ctx) {
+	deeperBounds(!c.Quick())
 	// ---- MatMul ----
 	maxBatchRank := c.Pick(3, 4)
 	for _, dst := range Shapes(0, maxBatchRank, 3) {
@@ -269,7 +270,7 @@ func runC04(c *fw.Ctx) {
 	}
 	for i := 0; i < c.Pick(4000, 40000); i++ { // sampled: batch rank 3-4 (operand rank up to 6), real-valued pass
 		c.Case(func(k *fw.K) {
-			dst := RandShape(k.Rng, 3, 4, 3)
+			dst := RandShape(k.Rng, 3, maxSampledRank-3, 3)
 			prs := batchPairs(dst)
 			pr := prs[k.Rng.Intn(len(prs))]
 			c04MatMul(k, pr[0], pr[1], 1+k.Rng.Intn(3), 1+k.Rng.Intn(3), 1+k.Rng.Intn(3), k.Rng.Intn(2) == 0)
